@@ -170,6 +170,10 @@ def c08_unit(task):
         if to:
             out["timeout"] = True
         out["order"] = {"problems": probs, "counters": dict(cnt)}
+    if not info["failures"] and not any(out["patterns"].values()) and task.get("call_sequences", True):
+        cprobs, ccnt = call_sequence_checks(spec, [r.npart for r in pr.ranks], ref,
+                                            f"{task.get('seed')}:{task.get('index')}")
+        out["calls"] = {"problems": cprobs, "counters": dict(ccnt)}
     return out
 
 
@@ -371,6 +375,53 @@ def _code_difference(a, b):
             if a[pid][f] != b[pid][f]:
                 return f
     return "?"
+
+
+# --------------------------------------------------------------------------- call sequences on the executor
+
+CALL_MODES = ("same-dict", "fresh-copy", "mutated-between-calls")
+
+
+def call_sequence_checks(spec, nparts, ref, key, ncalls=3, timeout=20.0):
+    """the same (numbered) partition executed several times, as a time loop does: the input dict
+    is (a) the same object every time, (b) a fresh copy per call, (c) the same object with one
+    input per rank replaced by the caller between calls.  Every call must return the reference
+    values for ITS inputs and must leave the caller's dict alone.  Returns (problems, counters)"""
+    n = spec["nranks"]
+    problems = []
+    cnt = collections.Counter()
+    for mode in CALL_MODES:
+        rng = random.Random(f"calls:{key}:{mode}")
+        dicts = [G.input_args(spec, r) for r in range(n)]
+        cur, cur_ref = spec, ref
+        salt: dict = {}
+        for call in range(ncalls):
+            if mode == "mutated-between-calls" and call > 0:
+                for r in range(n):
+                    if dicts[r]:
+                        nm = rng.choice(sorted(dicts[r]))
+                        salt[f"{r}:{nm}"] = call
+                cur = dict(spec, input_salt=dict(salt))
+                for k_ in salt:
+                    r, nm = k_.split(":", 1)
+                    dicts[int(r)][nm] = G.input_value(cur, int(r), nm)
+                try:
+                    cur_ref = G.reference(cur)
+                except G.RefUndefined:
+                    break
+            passed = [dict(d) for d in dicts] if mode == "fresh-copy" else dicts
+            sc = fakempi.Scheduler() if call == 0 else fakempi.Scheduler(rng=random.Random(rng.random()))
+            run = distrun.execute(cur, nparts, sc, timeout=timeout, input_dicts=passed)
+            msg = distrun.check_exec(run, cur_ref)
+            cnt["calls"] += 1
+            if msg == "pruned":
+                continue
+            if msg is not None:
+                problems.append({"mode": mode, "call": call, "what": _exec_class(msg), "detail": str(msg)[:200],
+                                 "choices": sc.choices})
+                break
+        cnt["sequences"] += 1
+    return problems, cnt
 
 
 # --------------------------------------------------------------------------- C09 unit
